@@ -547,6 +547,7 @@ def check(rep):
     rep.rule = ('scenario = 1..3 adder threads x 1..3 ops {consume (client- or broker-named tag), cancel own} + optional consuming thread in '
                 'start_consuming + optional stop_consuming at a random time + broker thread (0..4 deliveries, 0..2 broker cancels) x one random '
                 'schedule; distinct = distinct scenario+seed; non-trivial = >= 2 consumers and a concurrent stopper, broker cancel or consuming thread')
+    rep.rule += '; plus: concurrent re-use of a client-named tag (stall-after-release scheduling), a failed basic.get before the first consumer, and deterministic injection of add/remove into every gap of remove/add on the tag list'
     rep.assumptions = [
         'consumer tags are not reused on a channel',
         'the broker cancels only consumers whose consume() call has returned (see Props/C14 early_broker_cancel_loses_track)',
